@@ -40,6 +40,16 @@ def reentry_case(rep, drv, rnd, i):
         ('lk4', [V('Z'), V('X')], ('conj', ('disj', ('call', 'c', [V('X')]), 'tru'), ('disj', eq(V('Z'), ('A', 'X')), eq(V('Z'), V('X'))))),
     ]
     prog += [
+        # an else branch that is itself a generate-and-test, or contains another if-then-else and a further alternative
+        ('t10', [V('X'), V('R')], ('disj', ('ite', ('call', 'c', [('A', 'nothere')]), yes),
+                                   ('conj', ('call', 'c', [V('X')]), ('conj', ('neg', hx), no)))),
+        ('t11', [V('X'), V('R')], ('disj', ('ite', ('call', 'c', [('A', 'nothere')]), yes),
+                                   ('disj', ('disj', ('ite', hx, ('call', '=', [V('R'), ('A', 'one')])), ('call', '=', [V('R'), ('A', 'two')])),
+                                            ('call', '=', [V('R'), ('A', 'three')])))),
+        ('t12', [V('X'), V('R')], ('conj', ('call', 'c', [V('X')]), ('disj', ('ite', ('call', 'h', [('A', 'nothere')]), yes),
+                                   ('conj', ('call', 'c', [V('Y')]), ('conj', ('disj', ('ite', ('call', 'k', [V('X'), V('Y')]), 'fail'), 'tru'), no))))),
+    ]
+    prog += [
         # an if-then-else behind a disjunction and in front of another goal: its code is needed once per branch
         ('t8', [V('X'), V('R')], ('conj', ('disj', ('call', 'c', [V('X')]), ('call', 'c', [V('X')])),
                                   ('conj', ('disj', ('ite', hx, yes), no), ('call', 'two', [])))),
@@ -60,7 +70,7 @@ def reentry_case(rep, drv, rnd, i):
                                   ('conj', ('call', 'c', [V('X')]), ('conj', ('disj', ('ite', hx, yes), no), test(('call', 'k', [V('X'), V('X')])))))),
     ]
     ops = [('load', 'overwrite', prog)]
-    for name, ar in [('t1', 2), ('t2', 3), ('t3', 1), ('t4', 2), ('t5', 2), ('t6', 2), ('t7', 2), ('lk1', 2), ('lk2', 1), ('lk3', 2), ('lk4', 2), ('t8', 2), ('t9', 2)]:
+    for name, ar in [('t1', 2), ('t2', 3), ('t3', 1), ('t4', 2), ('t5', 2), ('t6', 2), ('t7', 2), ('lk1', 2), ('lk2', 1), ('lk3', 2), ('lk4', 2), ('t8', 2), ('t9', 2), ('t10', 2), ('t11', 2), ('t12', 2)]:
         ops.append(('query', name, ('all',), [[Sym('v'), j] for j in range(ar)]))
     rep.count('re-entered-constructs')
     if scen.three_way(rep, drv, ops, 'case %d re-entry' % i) == 'ok':
